@@ -6,7 +6,6 @@ import (
 	"io"
 	"strings"
 	"text/scanner"
-	"unicode/utf8"
 )
 
 type lexFn func(*lexer) lexFn
@@ -51,7 +50,7 @@ func (l *lexer) next() rune {
 		return scanner.EOF
 	}
 
-	l.pos[len(l.pos)-1]++
+	l.pos[len(l.pos)-1] += utf16Len(string(ch))
 	if ch == '\n' {
 		l.pos = append(l.pos, 0)
 	}
@@ -68,6 +67,10 @@ func (l *lexer) backup() {
 		l.pos = l.pos[:len(l.pos)-1]
 	}
 	l.pos[len(l.pos)-1]--
+	if l.width == 4 {
+		// a four-byte rune is a surrogate pair: two UTF-16 code units
+		l.pos[len(l.pos)-1]--
+	}
 
 	_ = l.reader.UnreadRune()
 	l.s = l.s[:len(l.s)-l.width]
@@ -191,12 +194,12 @@ func (l *lexer) errorf(format string, args ...any) lexFn {
 func (l *lexer) position() (int, int) {
 	newLinesInString := strings.Count(l.s, "\n")
 	line := len(l.pos) - newLinesInString
-	// l.pos counts runes per line: subtract the runes of the pending literal that are on its first line
+	// l.pos counts UTF-16 code units per line: subtract those of the pending literal that are on its first line
 	firstLine := l.s
 	if i := strings.Index(l.s, "\n"); i >= 0 {
 		firstLine = l.s[:i+1]
 	}
-	column := 1 + (l.pos[line-1]) - utf8.RuneCountInString(firstLine)
+	column := 1 + (l.pos[line-1]) - utf16Len(firstLine)
 	return line, column
 }
 
